@@ -363,6 +363,7 @@ func runC15(ctx *Ctx, idx int) {
 		}
 		ctx.Violate("C15/"+clause+"/"+fp, d)
 	}
+	var ptrArgs int64
 	chk := func(kind string, e encode.Encoder, v interface{}, ref []byte) bool {
 		var clause string
 		var ex map[string]interface{}
@@ -379,11 +380,51 @@ func runC15(ctx *Ctx, idx int) {
 			fail(kind, clause, v, ex)
 			return false
 		}
+		// TypeEncoder.Encode also takes a pointer to the value (binary.Write
+		// does): what it returns is the encoding of the value at the time of the
+		// call - reusing the variable for the next record must not change it, and
+		// writing to it must not reach the variable
+		if te, ok := e.(*encode.TypeEncoder); ok && v != nil {
+			var clause2 string
+			var ex2 map[string]interface{}
+			pv2, stack2 := try(func() {
+				typ := reflect.TypeOf(v)
+				hold := reflect.New(typ)
+				hold.Elem().Set(reflect.ValueOf(v))
+				enc1 := te.Encode(hold.Interface())
+				if !bytes.Equal(enc1, ref) {
+					clause2, ex2 = "layout-of-pointer-argument", map[string]interface{}{"got": hex.EncodeToString(enc1), "want": hex.EncodeToString(ref)}
+					return
+				}
+				hold.Elem().Set(reflect.Zero(typ))
+				zeroEnc := te.Encode(hold.Interface())
+				if !bytes.Equal(enc1, ref) {
+					clause2, ex2 = "encoding-changes-when-the-callers-variable-is-reused", map[string]interface{}{"after": hex.EncodeToString(enc1), "want": hex.EncodeToString(ref)}
+					return
+				}
+				for i := range enc1 {
+					enc1[i] ^= 0x5a
+				}
+				if !reflect.DeepEqual(hold.Elem().Interface(), reflect.Zero(typ).Interface()) || !bytes.Equal(te.Encode(hold.Interface()), zeroEnc) {
+					clause2, ex2 = "writing-to-an-encoding-changes-the-callers-variable", nil
+				}
+			})
+			if pv2 != nil {
+				fail(kind, "panic", v, map[string]interface{}{"panic": fmt.Sprint(pv2), "stack": stack2, "argument": "pointer"})
+				return false
+			}
+			if clause2 != "" {
+				fail(kind, clause2, v, ex2)
+				return false
+			}
+			ptrArgs++
+		}
 		if len(replayRecs) < 48 && (nvals <= 8 || nvals%61 == 0) {
 			replayRecs = append(replayRecs, c15Rec{kind, e, v, append([]byte{}, ref...)})
 		}
 		return true
 	}
+	defer func() { ctx.Count("typeencoder_values_also_encoded_through_a_pointer", ptrArgs) }()
 	defer func() {
 		if len(replayRecs) >= 2 && ctx.nviol == 0 {
 			if bad, what := concurrentReplay(replayRecs, 4, 30); bad != nil {
@@ -619,7 +660,21 @@ func runC15(ctx *Ctx, idx int) {
 			}
 			var v interface{}
 			var rf []byte
-			switch i / 2 % 6 {
+			switch i / 2 % 8 {
+			case 6:
+				// top-level byte arrays (digests, fixed-size ids): the same bytes in
+				// either byte order
+				a := [16]byte{}
+				for k := range a {
+					a[k] = byte(x >> uint(8*(k%8)))
+					if k >= 8 {
+						a[k] ^= byte(k * 37)
+					}
+				}
+				v, rf = a, append([]byte{}, a[:]...)
+			case 7:
+				a := [3]uint8{byte(x), byte(x >> 8), byte(x >> 16)}
+				v, rf = a, append([]byte{}, a[:]...)
 			case 0:
 				v, rf = uint8(x), put(1)
 			case 1:
@@ -641,8 +696,8 @@ func runC15(ctx *Ctx, idx int) {
 				v, rf = uint16(x), put(2)
 			}
 			// defined (named) scalar and array types every third time
-			if i%3 == 2 {
-				switch i / 2 % 6 {
+			if i%3 == 2 && i/2%8 < 6 {
+				switch i / 2 % 8 {
 				case 0:
 					v, rf = defB(x&1 == 1), []byte{byte(x & 1)}
 				case 1:
@@ -695,7 +750,7 @@ func init() {
 			if tier == "thorough" && (m.C("exhaustive32:i32") != 1<<32 || m.C("exhaustive32:u32") != 1<<32) {
 				missed = append(missed, "32-bit exhaustive")
 			}
-			for _, g := range []string{"values:i32", "values:u32", "values:i64", "values:u64", "values:int", "values:str16", "values:bytes", "values:struct", "values:prim", "values:dummy", "values:defined_types", "random_struct_types", "random_types:array_of_padded_structs", "typeencoder_made_by:struct literal", "typeencoder_made_by:Endian assigned after construction", "typeencoder_made_by:by-value copy with another Endian", "str16:lenclass_16", "str16:lenclass_0", "bytes:sizeclass_0", "bytes:sizeclass_13"} {
+			for _, g := range []string{"values:i32", "values:u32", "values:i64", "values:u64", "values:int", "values:str16", "values:bytes", "values:struct", "values:prim", "values:dummy", "values:defined_types", "random_struct_types", "random_types:array_of_padded_structs", "typeencoder_made_by:struct literal", "typeencoder_values_also_encoded_through_a_pointer", "typeencoder_made_by:Endian assigned after construction", "typeencoder_made_by:by-value copy with another Endian", "str16:lenclass_16", "str16:lenclass_0", "bytes:sizeclass_0", "bytes:sizeclass_13"} {
 				if m.C(g) == 0 {
 					missed = append(missed, g)
 				}
